@@ -151,6 +151,7 @@ type c07Case struct {
 		Excluded bool   `json:"excluded"`
 		Xfp      string `json:"xfp"`
 		Form     string `json:"form"`
+		Prior    string `json:"prior"`
 	} `json:"c"`
 	Exp struct {
 		Intercepted       bool   `json:"intercepted"`
@@ -167,7 +168,9 @@ func c07Cases(e *env) {
 	certs := map[string]tls.Certificate{
 		"valid": ca.leaf(names, ""), "expired": ca.leaf(names, "expired"),
 		"wrongname": ca.leaf([]string{"elsewhere.test", "10.9.9.9"}, ""), "untrusted": other.leaf(names, ""),
+		"proxyname": ca.leaf([]string{"upstream.test"}, ""),
 	}
+	upCert := ca.leaf([]string{"upstream.test"}, "")
 	var cases []c07Case
 	seen := map[string]bool{}
 	e.eachCase(func(raw json.RawMessage) {
@@ -203,6 +206,11 @@ func c07Cases(e *env) {
 			if c.C.Excluded {
 				fc.MITMDomains = []string{".*", "-^" + regexp.QuoteMeta(bare) + "$"}
 			}
+			viaUp := c.C.Prior == "tunnelViaTlsUpstream"
+			if viaUp {
+				fc.Upstream = "https://upstream.test:3129"
+				fc.MITMDomains = []string{".*", "-^excluded\\.test$"}
+			}
 			f, err := startFwd(fc)
 			if err != nil {
 				fatal("start: %v", err)
@@ -210,6 +218,23 @@ func c07Cases(e *env) {
 			defer f.stop()
 			log := &hitLog{}
 			cert := certs[c.C.Origin]
+			if viaUp {
+				// the upstream proxy (reached over TLS) answers every CONNECT and plays the target itself, with the
+				// origin's certificate; first a CONNECT to the excluded host is tunnelled through it
+				up := startHTTPProxyPeer("OT", log, &tls.Config{Certificates: []tls.Certificate{upCert}}, 0, &tls.Config{Certificates: []tls.Certificate{cert}})
+				defer up.close()
+				f.mapName("upstream.test:3129", up.addr())
+				pc, err := dialRaw(f.addr)
+				if err != nil {
+					fatal("dial: %v", err)
+				}
+				pc.send([]byte("CONNECT excluded.test:443 HTTP/1.1\r\nHost: excluded.test:443\r\n\r\n"))
+				if r, err := pc.recv("CONNECT", 8*time.Second); err != nil || r.Status != 200 {
+					fail(fmt.Sprintf("CONNECT to the excluded host through the upstream proxy failed: %v %v", statusOf(r), err))
+				}
+				pc.close()
+				time.Sleep(20 * time.Millisecond)
+			}
 			ot := startOrigin("OT", log, &tls.Config{Certificates: []tls.Certificate{cert}}, nil)
 			plain := startOrigin("PLAIN", log, nil, nil)
 			defer ot.close()
